@@ -91,6 +91,10 @@ type c17Case struct {
 	// frequency setting (and then one with the same setting) is initialised on an alignment of skewed
 	// composition and computes a matrix; nothing of it may show in the case's distances
 	Prior bool `json:"prior_model,omitempty"`
+	// Reuse: the model object of the case first computes the matrix of the same rows with their columns
+	// reversed (same length, gaps elsewhere), as build distboot and a multi-alignment input make one model
+	// serve several alignments; the matrix that is judged is the one of the second call
+	Reuse bool `json:"model_reused,omitempty"`
 }
 
 func (cs c17Case) cfgKey() string {
@@ -345,6 +349,9 @@ func (k *c17Checker) viol(clause, desc string) {
 	if k.cs.Prior {
 		clause = "after-another-model-object/" + clause // a history case: replays on its own
 	}
+	if k.cs.Reuse {
+		clause = "model-reused/" + clause
+	}
 	k.c.Violation(c17Sigp+clause, fmt.Sprintf("%s: case %s", desc, jsonStr(k.cs)), k.cs)
 }
 
@@ -382,6 +389,25 @@ func (k *c17Checker) exec(seqs []string, w []float64) *c17Res {
 		stage = "InitModel"
 		if err = m.InitModel(al, wIn); err != nil {
 			return
+		}
+		if cs.Reuse {
+			rev := make([]string, len(seqs))
+			for i, x := range seqs {
+				b := []byte(x)
+				for l, r := 0, len(b)-1; l < r; l, r = l+1, r-1 {
+					b[l], b[r] = b[r], b[l]
+				}
+				rev[i] = string(b)
+			}
+			if ral, rerr := mkAlign(align.AMINOACIDS, namedRows(rev...)); rerr == nil {
+				var rw []float64
+				if wIn != nil {
+					for i := len(wIn) - 1; i >= 0; i-- {
+						rw = append(rw, wIn[i])
+					}
+				}
+				m.MLDist(ral, rw)
+			}
 		}
 		stage = "MLDist"
 		_, _, dist, err = m.MLDist(al, wIn)
@@ -945,6 +971,19 @@ func c17Tasks(tier string) []mc.Task {
 				}
 			}})
 		}
+		// the same model object served the column-reversed alignment before (gap-site removal on and off)
+		ts = append(ts, mc.Task{Name: fmt.Sprintf("model-reused#%s", c17ModelNames[model]), Run: func(c *mc.Ctx) {
+			for _, mf := range []bool{true, false} {
+				for _, rm := range []bool{true, false} {
+					forEachAlignment("AR-", 2, 3, func(seqs []string) bool {
+						if strings.Contains(seqs[0]+seqs[1], "-") || !rm {
+							c17Check(c, c17Case{Seqs: seqs, Model: model, ModelFreqs: mf, RmGaps: rm, Reuse: true})
+						}
+						return !c.Expired()
+					})
+				}
+			}
+		}})
 		// another model object of the same matrix served before (other frequency setting, skewed data)
 		ts = append(ts, mc.Task{Name: fmt.Sprintf("prior-model#%s", c17ModelNames[model]), Run: func(c *mc.Ctx) {
 			for _, mf := range []bool{true, false} {
@@ -1013,7 +1052,7 @@ func init() {
 	mc.Register(&mc.Prop{
 		ID:    "C17",
 		Level: "exploration",
-		Rule: "(also: all 2x3 alignments over {A,R,-} holding a gap, gap-site removal on, weights = every arrangement of (1,2,3); all 2x2 alignments over {A,R,W} computed after another model object of the same matrix, with the other and then the same frequency setting, served on skewed data;) bounded-exhaustive enumeration of protein.NewProtDistModel + InitModel + MLDist on a lattice. Configurations: all 7 empirical models (LG, JTT, WAG, Dayhoff, MtREV, HIVb, AB) x {model, empirical} frequencies x gamma {off, alpha 0.5, 1, 2} x gap-site removal {off, on}. " +
+		Rule: "(also: all 2x3 alignments over {A,R,-} computed by a model object that first served the column-reversed alignment; all 2x3 alignments over {A,R,-} holding a gap, gap-site removal on, weights = every arrangement of (1,2,3); all 2x2 alignments over {A,R,W} computed after another model object of the same matrix, with the other and then the same frequency setting, served on skewed data;) bounded-exhaustive enumeration of protein.NewProtDistModel + InitModel + MLDist on a lattice. Configurations: all 7 empirical models (LG, JTT, WAG, Dayhoff, MtREV, HIVb, AB) x {model, empirical} frequencies x gamma {off, alpha 0.5, 1, 2} x gap-site removal {off, on}. " +
 			"Inputs, quick tier: every alignment of " + c17BoundText("quick") + ". Thorough tier: " + c17BoundText("thorough") + ". " +
 			"Every input is executed once (a fresh model per execution) and its matrix is compared with the matrix of its smallest row/column rearrangement, so that every row order and every column order (weights travelling with their columns) of every alignment is covered; symmetries of an alignment (equal rows, equal columns) are checked on its own matrix. " +
 			"Clauses per matrix: square of the right size, no NaN, |d_ii| <= 1e-6, |d_ij - d_ji| <= 1e-6, 0 <= d_ij <= 20 (exact), d_ij <= 1e-6 when no column holds two different unambiguous residues, " +
